@@ -247,6 +247,21 @@ func (e *Engine) doIf(st *State, in *ssa.If) []*State {
 
 func (e *Engine) doAlloc(st *State, in *ssa.Alloc) {
 	t := in.Type().(*types.Pointer).Elem()
+	if isStruct(t) && e.localStructOK(in) {
+		// a struct-valued local whose address never escapes: kept as a cell holding a datatype value
+		id := e.d.nfresh + 1
+		e.d.nfresh++
+		s := e.d.SortOf(t)
+		st.cells[id] = term(e.d.Zero(s, t), s, t)
+		if st.dry != nil {
+			st.dry.mod.cells[id] = true
+		}
+		e.setReg(st, in, Val{K: KCell, Cell: id, Typ: in.Type()})
+		if in.Comment != "" {
+			st.top().cellByName[in.Comment] = id
+		}
+		return
+	}
 	if isStruct(t) || isArray(t) {
 		v := e.allocObject(st, t, "obj_"+in.Comment)
 		e.setReg(st, in, v)
@@ -526,6 +541,15 @@ func (e *Engine) doFieldAddr(st *State, in *ssa.FieldAddr) {
 	x := e.val(st, in.X)
 	pt := in.X.Type().Underlying().(*types.Pointer)
 	stt := pt.Elem()
+	if x.K == KCell || x.K == KCellPath {
+		root := x.Root
+		if x.K == KCell {
+			root = stt
+		}
+		path := append(append([]int{}, x.Path...), in.Field)
+		e.setReg(st, in, Val{K: KCellPath, Cell: x.Cell, Path: path, Root: root, Typ: in.Type()})
+		return
+	}
 	if x.K != KTerm {
 		panic(unsupported("fieldaddr on non-term base"))
 	}
@@ -946,4 +970,76 @@ func (e *Engine) abortPoint(st *State, instr ssa.Instruction, why string) {
 		detail = detail[:70]
 	}
 	e.oblige(st, "safety:"+why, pos, detail, goal)
+}
+
+// localStructOK: the struct-typed local is only stored to / loaded from as a whole or through field addresses
+// (recursively); its address is never passed to a call, stored, or compared.
+func (e *Engine) localStructOK(a *ssa.Alloc) bool {
+	if a.Heap {
+		return false
+	}
+	if v, ok := e.localOK[a]; ok {
+		return v
+	}
+	var okAddr func(v ssa.Value, t types.Type) bool
+	okAddr = func(v ssa.Value, t types.Type) bool {
+		refs := v.Referrers()
+		if refs == nil {
+			return false
+		}
+		for _, r := range *refs {
+			switch u := r.(type) {
+			case *ssa.Store:
+				if u.Addr != v || u.Val == v {
+					return false
+				}
+			case *ssa.UnOp:
+				if u.Op != token.MUL {
+					return false
+				}
+			case *ssa.FieldAddr:
+				if u.X != v {
+					return false
+				}
+				ft := t.Underlying().(*types.Struct).Field(u.Field).Type()
+				if isArray(ft) {
+					return false
+				}
+				if isStruct(ft) {
+					if !okAddr(u, ft) {
+						return false
+					}
+				} else {
+					// leaf field address: only loads and stores through it
+					lr := u.Referrers()
+					if lr == nil {
+						return false
+					}
+					for _, x := range *lr {
+						switch y := x.(type) {
+						case *ssa.Store:
+							if y.Addr != u || y.Val == u {
+								return false
+							}
+						case *ssa.UnOp:
+							if y.Op != token.MUL {
+								return false
+							}
+						case *ssa.DebugRef:
+						default:
+							return false
+						}
+					}
+				}
+			case *ssa.DebugRef:
+			default:
+				return false
+			}
+		}
+		return true
+	}
+	t := a.Type().(*types.Pointer).Elem()
+	ok := okAddr(a, t)
+	e.localOK[a] = ok
+	return ok
 }
